@@ -51,6 +51,11 @@ CHECKS = {
    note="Trusted: Coq kernel; LLVM StructLayout and ABI alignments as transcribed in Model/Layout.v; LLVM/lli; interpreter Model/Sem.v. Print Assumptions: closed.",
    technique="Coq proof: typer layout = LLVM layout (exact for primitives, conservative for nested words), size-of = allocation size; differential execution of generated layouts and constant expressions",
    design="5/C10"),
+ "C09": dict(
+   text="Machine-checked proof (Coq) about integer literals from token to bit pattern: for every spelling (optional minus, magnitude below 2^128, naked / bit-integer / suffixed token) and every integer type on both targets, the parser's signed/bit split with unary-minus folding followed by the generator's materialisation (case-split constants and usize mask regenerated from generator.rs) yields exactly the mathematical value modulo 2^width; the truncation lint L1142 is raised iff the value is outside the type's range (ranges regenerated from value_type.rs), with one precisely characterised class of false positives (negated bit-integer literal of magnitude max+1: listed finding D22); a literal without lint has exactly its mathematical value. Tie: literal matrix (all integer types x boundary and random values x all spellings) compiled and run, value/lint/E140 vs the mathematical oracle and vs the extracted model; characters and strings (every \\xHH, simple escapes, \\u{}, raw multi-byte, concatenation) by execution; malformed forms by their codes.",
+   note="Trusted: Coq kernel; translator; hand model Model/Literal.v of parser/linter/generator arms; lexing of spellings is proved on the lexer models (C14) and exercised end to end here. Fixed: D2 (usize mask), D9 (i128::MIN). Known finding D22. Print Assumptions: closed.",
+   technique="Coq proof: materialisation = value mod 2^w and lint <-> out-of-range (with characterised exception) over translator-generated constants; exhaustive-by-boundary differential execution",
+   design="5/C09"),
 }
 
 NOT_YET = {
